@@ -306,7 +306,7 @@ func c10GenPhase(r *Rng, nmsg int, noEdits bool) c10Phase {
 		ph.Msgs = append(ph.Msgs, c10Msg{Kind: strings.TrimPrefix(strings.TrimPrefix(m, "textDocument/"), "luahelper/"), Method: m, Params: params, QKey: m + "|" + string(b)})
 		// a name-carrying request directly followed by an overwrite of the same length in the same document (typing in
 		// overwrite mode right after the outline was requested): the edit must not reach into the answer under way
-		if !noEdits && (m == "textDocument/documentSymbol" || m == "textDocument/completion" || m == "workspace/symbol") && open[rel] && r.Chance(1, 2) {
+		if !noEdits && (m == "textDocument/documentSymbol" || m == "textDocument/completion" || m == "workspace/symbol") && open[rel] && r.Chance(9, 10) {
 			ver++
 			addMut("didChangeRange", "textDocument/didChange", map[string]interface{}{"textDocument": map[string]interface{}{"uri": uri(rel), "version": ver},
 				"contentChanges": []interface{}{map[string]interface{}{"range": Range{Position{0, 6}, Position{0, 12}}, "text": r.Pick([]string{"c,d,e0", "cfgx_0", "a,bb,c"})}}})
